@@ -97,6 +97,152 @@ def replay_cfg(chk, g, ik, cf, P, layout, inplace, boolin, rng, max_states, devi
     return st, mism
 
 
+# ------------------------------------------------------------------ direction B (dyadic recipe)
+CK, KS = 8, 24
+
+
+def _tau_for(dt, target):
+    """a time constant for which exp(-dt/tau) is exactly `target` in IEEE double"""
+    t = -dt / math.log(target)
+    for _ in range(200):
+        d = math.exp(-dt / t)
+        if d == target:
+            return t
+        t = math.nextafter(t, math.inf if d < target else -math.inf)
+    return None
+
+
+def _dv(x):
+    if isinstance(x, bool):
+        x = float(x)
+    if math.isnan(x) or math.isinf(x):
+        return {"k": "bad"}
+    y = x * (1 << KS)
+    return {"k": "i", "i": int(round(y))} if abs(y - round(y)) < 2 ** -8 and abs(y) < 2 ** 31 else {"k": "bad"}
+
+
+def _dv_ring(r):
+    return {"n": r["n"], "ptr": r["ptr"], "store": [[_dv(x) for x in row] for row in r["store"]]}
+
+
+def random_traces(rng, count, steps):
+    traces = []
+    kinds = ["delta", "dplus", "sexp", "dexp"]
+    for ti in range(count):
+        sk = kinds[ti % 4]
+        D = rng.choice([1, 2, 4])
+        dt = rng.choice([1.0, 0.5, 0.25])
+        tau = _tau_for(dt, 0.5)
+        tau_r = _tau_for(dt, 0.25)
+        if tau is None or tau_r is None:
+            continue      # recipe unavailable on this platform: skipped, never failed
+        a = rng.choice([0, 1, 2])
+        sign = rng.choice([1.0, -1.0])
+        c = sign * 2.0 ** -a                       # the value Q/dt, Q/tau, Q/dd must take
+        Q = {"delta": c * dt, "dplus": c * dt, "sexp": tau * c, "dexp": (tau - tau_r) * c}[sk]
+        ju = rng.choice([0.5, 0.25, 1.0])
+        ob = rng.choice([0.0, -2.0, 0.75])
+        P = SynParams(dt=dt, D=D, Q=Q, tau=tau, tau_d=tau, tau_r=tau_r, ju=ju, ob=ob)
+        vals = {"Q/dt": Q / dt, "Q/tau": Q / tau, "Q/dd": Q / (tau - tau_r), "J": ju, "OB": ob}
+        used = {"delta": "Q/dt", "dplus": "Q/dt", "sexp": "Q/tau", "dexp": "Q/dd"}[sk]
+        if vals[used] != c:
+            continue
+        cs = {k: (int(round(v * (1 << CK))) if k in (used, "J", "OB") else 0) for k, v in vals.items()}
+        tol = rng.choice([0, 1])
+        dly = rng.choice([0, D, 2 * D, 3 * D, D + D // 2, 2 * D + D // 2])
+        cf = {"sk": sk, "dtk": D, "dly": dly, "smode": rng.choice(["previous", "nearest"]), "tol2": 2 * tol + 1,
+              "cob": rng.choice(["none", "val"]), "sob": rng.choice(["none", "t", "f"])}
+        shape = rng.choice([(1,), (2,), (3,), (2, 2)])
+        batch = rng.choice([1, 1, 2, 3])
+        hdr = {"cf": cf, "params": P, "shape": shape, "batch": batch, "inplace": rng.random() < 0.5,
+               "boolin": rng.random() < 0.5}
+        impl = SynImpl(hdr)
+        # the dyadic recipe passes the EXACT tolerance (0 or one tick), not the half-tick device
+        impl.syn = __import__("harness.impl_synapse", fromlist=["make_synapse"]).make_synapse(
+            dict(cf, tol2=2 * tol), P, shape, batch, hdr["inplace"])
+        E = impl.E
+        evs, since = [], 0
+        exp_kind = sk in ("sexp", "dexp")
+        for _ in range(steps):
+            r = rng.random()
+            if since >= 8:
+                o = {"a": "clear"}
+            elif r < 0.5:
+                o = {"a": "step", "v": [{"s": int(rng.random() < 0.45),
+                                         "j": rng.randint(0, 3) if sk == "dplus" else 0} for _ in range(E)]}
+            elif r < 0.56:
+                o = {"a": "current"}
+            elif r < 0.62:
+                o = {"a": "spike"}
+            elif r < 0.95:
+                def pick():
+                    z = rng.random()
+                    if z < 0.2:
+                        return rng.choice([-3, -2, -1, dly + 1, dly + 2, dly + 3])
+                    if z < 0.3:
+                        return dly
+                    return rng.randint(0, dly) if dly else 0
+                cur = rng.random() < 0.5
+                sel = [pick() for _ in range(E)]
+                if cur and exp_kind:
+                    # analytic-decay interpolation is not dyadic: exponential currents are read on the grid
+                    sel = [z if (z < 0 or z > dly or z % D == 0) else (z // D) * D for z in sel]
+                    if dly % D and any(z >= dly for z in sel):
+                        sel = [min(z, (dly // D) * D) if z >= 0 else z for z in sel]
+                o = {"a": "current_at" if cur else "spike_at", "sel": sel}
+            else:
+                o = {"a": "clear"}
+            ret = impl.apply(o)
+            since = since + 1 if o["a"] == "step" else (0 if o["a"] == "clear" else since)
+            if ret.get("t") == "cur":
+                ret = {"t": "cur", "v": [_dv(x) for x in ret["v"]]}
+            pj = impl.project()
+            stp = {"spk": pj["spk"], "c1": _dv_ring(pj["c1"]) if "c1" in pj else {"n": 0},
+                   "c2": _dv_ring(pj["c2"]) if "c2" in pj else {"n": 0}}
+            evs.append({"op": o, "ret": ret, "st": stp})
+        traces.append({"hdr": {"cf": cf, "E": E, "cs": cs, "ck": CK, "K": KS, "hb": {"q": 1, "qd": 1, "qr": 2},
+                               "waive": [], "cfg": {"cls": CLASS[sk], "shape": list(shape), "batch": batch,
+                                                    "inplace": hdr["inplace"], "boolin": hdr["boolin"],
+                                                    "exact_tolerance_ticks": tol, "params": P.asdict()}},
+                       "ev": evs})
+    return traces
+
+
+def validate(chk: Check, traces, report=True, shards=8):
+    stats, rej = tracecheck.validate("SynapseTrace", traces, shards=shards)
+    if report:
+        chk.traces += len(traces)
+        chk.states += stats["distinct"]
+        chk.transitions += stats["generated"]
+        nev = 0
+        seen_step = False
+        for ti, t in enumerate(traces):
+            seen_step = False
+            for j, e in enumerate(t["ev"]):
+                nev += 1
+                seen_step = seen_step or e["op"]["a"] == "step"
+                if seen_step:
+                    chk.nontrivial.add(("trace", ti, j))
+        chk.evaluations += nev
+        chk.extra["trace_events"] = nev
+        chk.note(f"traces: {len(traces)} dyadic traces, {nev} events, rejected lines={len(rej)}")
+        chk.sample({"kind": "trace", "cfg": traces[0]["hdr"]["cfg"], "cf": traces[0]["hdr"]["cf"],
+                    "first_events": traces[0]["ev"][:3]})
+        for r in rej:
+            t = traces[r["trace"]]
+            exp = (r["diag"] or {}).get("expected")
+            ev = r["event"]
+            cf = t["hdr"]["cf"]
+            sig = {"clause": symcommon.trace_clause(ev, exp), "op": ev["op"]["a"], "site": "dyadic-trace",
+                   "cls": t["hdr"]["cfg"]["cls"], "sob": cf["sob"], "cob": cf["cob"], "delayed": cf["dly"] > 0}
+            if ev["ret"].get("t") == "err":
+                sig["raised"] = ev["ret"].get("e")
+            chk.violation(sig, {"cfg": t["hdr"]["cfg"], "cf": cf, "ops": [e["op"] for e in t["ev"][: r["line"]]],
+                                "line": r["line"], "expected": exp or (r["diag"] or {}).get("unrefined"),
+                                "observed": {"ret": ev["ret"], "st": ev["st"]}})
+    return stats, rej
+
+
 def run(tier: str, seed: int) -> int:
     chk = Check(PID, tier, seed)
     rng = random.Random(seed)
@@ -168,4 +314,28 @@ def run(tier: str, seed: int) -> int:
         raise MachineryFailure("canary: deviating replay was not rejected")
     chk.extra["canary_replay_mismatches"] = len(mism)
     chk.note(f"canary: deviating replay rejected ({len(mism)} mismatches)")
+    # ---- B
+    traces = random_traces(rng, 64 if tier == "quick" else 800, steps=28 if tier == "quick" else 40)
+    if not traces:
+        chk.note("dyadic recipe unavailable: no traces")
+    else:
+        _, rej0 = validate(chk, traces)
+        rejected = {r["trace"] for r in rej0}
+        good = copy.deepcopy(next(t for i, t in enumerate(traces) if i not in rejected and t["hdr"]["cf"]["sk"] == "sexp"))
+        good["hdr"]["waive"] = []
+        bad = copy.deepcopy(good)
+        line = None
+        for i, e in enumerate(bad["ev"]):
+            if e["ret"].get("t") == "cur" and e["op"]["a"] == "step" and e["ret"]["v"][0].get("k") == "i":
+                e["ret"]["v"][0]["i"] += 1
+                line = i + 1
+                break
+        if line is None:
+            raise MachineryFailure("canary: no event to corrupt")
+        _, rej = tracecheck.validate("SynapseTrace", [good, bad], shards=1, max_waive_rounds=1)
+        got = {(r["trace"], r["line"]) for r in rej}
+        if (1, line) not in got or any(t == 0 for t, _ in got):
+            raise MachineryFailure(f"canary: corrupted trace not rejected at line {line} (got {got})")
+        chk.extra["canary_trace_rejected_at_line"] = line
+        chk.note(f"canary: corrupted trace rejected at line {line}")
     return chk.finish()
